@@ -19,12 +19,12 @@ echo "## baseline suite with the change (cargo nextest run --workspace --offline
 cargo nextest run --workspace --no-fail-fast --offline > $out/suite_with_change.txt 2>&1
 grep -E "Summary|tests run" $out/suite_with_change.txt | tail -2 >> $log
 suite_ok=$(grep -cE "138 tests run: 138 passed" $out/suite_with_change.txt)
-cp $seed/demo_test.rs $wt/$dest
+if [ -n "${DEMO_INSTALL:-}" ]; then $DEMO_INSTALL $wt; else cp $seed/demo_test.rs $wt/$dest; fi
 echo "## demo WITH the change: RUSTFLAGS='$rf' cargo test --offline $*" >> $log
 if [ "$rf" = "-" ]; then cargo test --offline "$@" > $out/demo_with.txt 2>&1; else RUSTFLAGS="$rf" cargo test --offline "$@" > $out/demo_with.txt 2>&1; fi
 with_rc=$?
 grep -E "^test result|panicked" $out/demo_with.txt | head -5 >> $log
-git checkout -q -- .
+git apply -R $seed/patch.diff
 echo "## demo WITHOUT the change" >> $log
 if [ "$rf" = "-" ]; then cargo test --offline "$@" > $out/demo_without.txt 2>&1; else RUSTFLAGS="$rf" cargo test --offline "$@" > $out/demo_without.txt 2>&1; fi
 without_rc=$?
